@@ -156,6 +156,64 @@ def codec_check(acc, shard, nshards):
     return probs
 
 
+def run_storage_fault(case, acc, i, count=True):
+    from vlib import runner as RN
+    rng = random.Random("sf:%s:%d" % (case.get("sim_seed", 0), i))
+    storage = "sqlite" if i % 4 == 1 else "mock"
+    # size the run first: how many storage writes does the history produce after the base tree?
+    holder = {}
+
+    class Arm(RN.Monitor):
+        def after_base(self, sim, case_):
+            holder["w0"] = sim.storage.writes
+            if holder.get("k"):
+                sim.storage.fail_at = holder["w0"] + holder["k"]
+
+    obs, sim = RN.run_case(case, monitors=[Arm()], sim_kwargs={"storage": storage, "rng": random.Random(case.get("sim_seed", 0))},
+                           keep_sim=True)
+    try:
+        n = sim.storage.writes - holder.get("w0", 0)
+    finally:
+        sim.close()
+    if obs.harness_error:
+        acc.errors.append(obs.harness_error)
+        return None
+    if n < 2:
+        return []
+    holder["k"] = rng.randrange(1, n + 1)
+    case2 = dict(case)
+    side = rng.randrange(2)
+    tail = {"side": side, "op": "create", "path": "after-the-failure-%d.txt" % i, "data": b"tail-%d" % i, "obj": None}
+    case2["sched"] = list(case["sched"]) + [["Q"], ["U", tail]]
+    obs, sim = RN.run_case(case2, monitors=[Arm()], sim_kwargs={"storage": storage, "rng": random.Random(case.get("sim_seed", 0))},
+                           keep_sim=True)
+    try:
+        probs = []
+        if obs.harness_error:
+            acc.errors.append(obs.harness_error)
+            return None
+        failed = sim.storage.failed
+        if any(q[0] == "not_quiescent" for q in obs.problems):
+            probs.append(("not_quiescent_after_a_transient_storage_failure", obs.problems[:1]))
+        else:
+            ps = O.persist_problems(sim)
+            if ps:
+                probs.append(("persisted_state_differs_after_recovery", ps[:4], "failed write %d of %d" % (holder["k"], n)))
+            rp = O.reload_problems(sim)
+            if rp:
+                probs.append(("reloaded_state_differs_after_recovery", rp[:4]))
+        if count:
+            acc.evaluations += 1
+            acc.count("storage_fault_runs")
+            acc.count("storage_writes_failed", failed)
+            acc.add("storage_backends", storage)
+            if failed:
+                acc.sigs.add("sf:%d" % i)
+        return probs
+    finally:
+        sim.close()
+
+
 def shard(ctx, acc):
     plan = META["plan"][ctx.tier]
     flavours = F.S.FLAVOURS_MAIN if ctx.tier == "quick" else F.S.FLAVOURS_ALL
@@ -167,6 +225,15 @@ def shard(ctx, acc):
         acc.sample(W.brief_case(case), cap=2)
         if probs:
             acc.violation(probs[0][0], probs[:3], case)
+    # transient storage failure: one write of the run raises; afterwards the users do one more thing, the engine runs to
+    # quiescence, and storage must again equal memory (whatever was owed to storage when the write failed is written later)
+    for i in F.indices(ctx, plan["cases"] // 4):
+        case = F.make_case(ctx.seed, PROP + "sf", i, families=("ONE0", "ONE1", "DISJ"), flavours=flavours)
+        probs = run_storage_fault(case, acc, i)
+        if probs is None:
+            continue
+        if probs:
+            acc.violation("storage_fault:" + probs[0][0], probs[:3], dict(case, storage_fault=True, sf_index=i))
     probs = codec_check(acc, ctx.shard, ctx.nshards)
     if ctx.shard == 0:
         acc.sample({"family": "CODEC", "row_shapes": {"hashes": len(HASHES), "paths": len(PATHS), "oids": len(OIDS),
